@@ -195,6 +195,11 @@ def gen_scenario(r, idx, family="mixed", force_signal=False):
               double_spawn=not (scripts and r.random() < 0.5))
     if family == "mixed" and (r.random() < SIGNAL_P or force_signal):
         add_signal(sc, r)
+    r3 = __import__("random").Random(idx * 7919 + ntests)
+    if r3.random() < 0.3 and not any(t["kind"] == "ignored" for t in tests):
+        # output configuration: one of the libtest-json message formats (combined capture). Not with ignored
+        # tests: that reporter's own counter underflows on them (observation O3, outside this property)
+        sc["message_format"] = r3.choice(["libtest-json", "libtest-json-plus"])
     return finish_scenario(sc)
 
 
@@ -351,6 +356,12 @@ def fixed_scenarios():
                     bin_tests=bt, overrides=[],
                     scripts=[{"id": "grace_5", "kind": "graceful", "ss": True, "sf": True, "capture": True}],
                     threads=2, signal_on=("SetupScriptStarted", 0.4, int(signal.SIGTERM))))
+    # the same two text-carrying scenarios under combined capture (a libtest-json message format)
+    import copy as _copy
+    for k, fmt in ((0, "libtest-json"), (1, "libtest-json-plus")):
+        tw = _copy.deepcopy(out[k])
+        tw.update(idx=10 + k, message_format=fmt)
+        out.append(tw)
     return [finish_scenario(s) for s in out]
 
 
@@ -428,6 +439,11 @@ def run_one(rig, sc, timeout=90):
     if not sc.get("double_spawn", True):
         # without the launcher an unspawnable test / script is an execution failure (with it: exit 70, FAIL)
         env_extra["NEXTEST_DOUBLE_SPAWN"] = "0"
+    fmt_args = []
+    if sc.get("message_format"):
+        # a machine-readable message format: stdout and stderr of each test are captured as ONE stream
+        fmt_args = ["--message-format", sc["message_format"]]
+        env_extra["NEXTEST_EXPERIMENTAL_LIBTEST_JSON"] = "1"
     jp = junit_path(sc["profile"])
     if os.path.exists(jp):
         os.remove(jp)
@@ -440,7 +456,8 @@ def run_one(rig, sc, timeout=90):
         with open(jp, "w") as f:
             f.write('<?xml version="1.0" encoding="UTF-8"?>\n<testsuites name="old" tests="200" failures="0" errors="0">'
                     f'<testsuite name="old" tests="200" disabled="0" errors="0" failures="0">{old_cases}</testsuite></testsuites>\n')
-    res = use.run(sc["puppet"], sc["cfg"], args=["--profile", sc["profile"], "--test-threads", str(sc["threads"])],
+    res = use.run(sc["puppet"], sc["cfg"],
+                  args=["--profile", sc["profile"], "--test-threads", str(sc["threads"])] + fmt_args,
                   signals=signals, timeout=timeout, env_extra=env_extra)
     junit = None
     if os.path.exists(jp):
@@ -465,9 +482,18 @@ RERUN_TAGS = {"flakyFailure": ("flaky", "failure"), "flakyError": ("flaky", "err
               "rerunFailure": ("rerun", "failure"), "rerunError": ("rerun", "error")}
 
 
-def stored_of(elem):
-    """(stored?, mixed?, attempt marker) from the system-out / system-err children of an element"""
+def stored_of(elem, combined=False):
+    """(stored?, mixed?, attempt marker) from the system-out / system-err children of an element.
+    combined: the run captured stdout and stderr as one stream (the libtest-json message formats); a stored
+    output is then one system-out element"""
     so, se = elem.find("system-out"), elem.find("system-err")
+    if combined:
+        marker = None
+        if so is not None and so.text:
+            m = MARK.search(so.text)
+            if m:
+                marker = (m.group(1), int(m.group(2)))
+        return so is not None, False, marker
     marker = None
     if so is not None and so.text:
         m = MARK.search(so.text)
@@ -476,7 +502,7 @@ def stored_of(elem):
     return (so is not None and se is not None), ((so is None) != (se is None)), marker
 
 
-def parse_junit(data):
+def parse_junit(data, combined=False):
     """strict parse (expat). Returns (report | None, error text | None)"""
     try:
         root = ET.fromstring(data)
@@ -499,7 +525,7 @@ def parse_junit(data):
                 if ch.tag in ("failure", "error"):
                     status, nstatus = ch.tag, nstatus + 1
                 elif ch.tag in RERUN_TAGS:
-                    st, mixed, marker = stored_of(ch)
+                    st, mixed, marker = stored_of(ch, combined and not (s.get("name") or "").startswith("@setup-script:"))
                     rso = ch.find("system-out")
                     reruns.append(dict(family=RERUN_TAGS[ch.tag][0], kind=RERUN_TAGS[ch.tag][1], stored=st,
                                        mixed=mixed, marker=marker,
@@ -508,7 +534,7 @@ def parse_junit(data):
                     return None, f"unexpected child {ch.tag} of testcase"
                 if ch.tag == "skipped":
                     status = "skipped"
-            st, mixed, marker = stored_of(c)
+            st, mixed, marker = stored_of(c, combined and not (s.get("name") or "").startswith("@setup-script:"))
             so = c.find("system-out")
             cases.append(dict(name=c.get("name"), classname=c.get("classname"), status=status,
                               nstatus=nstatus, reruns=reruns, stored=st, mixed=mixed, marker=marker,
@@ -903,6 +929,12 @@ def check_stored_text(chk, scs, reps):
                     if not el.get("stored") or el.get("out") is None or not el.get("marker"):
                         continue
                     src = scripted_stdout(sc, s_["name"], c["name"], el["marker"][1])
+                    if src is not None and sc.get("message_format") and \
+                            sc["bin_tests"][s_["name"]][c["name"]]["attempts"][el["marker"][1] - 1].get("stderr"):
+                        # combined capture: the stored text interleaves both streams; only attempts that are
+                        # silent on stderr are compared character by character
+                        chk.count("stored_text_skipped_combined_with_stderr")
+                        continue
                     if src is None or len(src) > TEXT_MAX:
                         chk.count("stored_text_skipped_long" if src is not None else "stored_text_skipped_unknown")
                         continue
@@ -913,6 +945,8 @@ def check_stored_text(chk, scs, reps):
                                            for (_, _, _, _, src, _) in items])
     for (sc, b, name, k, src, got), w in zip(items, want):
         chk.count("stored_text_cases")
+        if sc.get("message_format"):
+            chk.count("stored_text_cases_combined_capture")
         if any(ord(ch) == ESC for ch in src):
             chk.count("stored_text_with_esc")
         if any(ord(ch) in (0xfffe, 0xffff) for ch in src):
@@ -972,9 +1006,10 @@ def evaluate(chk, scs, obs, tag="c17"):
     for sc, o, m in zip(scs, obs, models):
         chk.count("e2e_runs")
         chk.count(f"family_{sc['family']}")
+        chk.count("capture=" + ("combined:" + sc["message_format"] if sc.get("message_format") else "split"))
         rep = err = None
         if o["junit"] is not None:
-            rep, err = parse_junit(o["junit"])
+            rep, err = parse_junit(o["junit"], bool(sc.get("message_format")))
         reps.append(rep)
         bad = oracle(sc, o, rep, err)
         diffs = compare(sc, o, m, rep)
